@@ -1,14 +1,17 @@
 import Drv.Trunc
 /-!
 Line-protocol driver: one operation per line on stdin, one canonical answer line on stdout.
-First field selects the engine. Unknown / malformed lines answer `bad-op` (never a default).
+Every engine exports `handle : List String → Option String` answering only its own ops;
+the first engine that answers wins.  Unknown / malformed lines answer `bad-op` (never a default).
 -/
 open Proto
 
+def handlers : List (List String → Option String) := [
+  Drv.Trunc.handle
+]
+
 def dispatch (fs : List String) : Option String :=
-  match fs with
-  | "trunc" :: _ | "truncasis" :: _ | "interp" :: _ | "spec15" :: _ => Drv.Trunc.handle fs
-  | _ => none
+  handlers.findSome? (fun h => h fs)
 
 partial def loop (h : IO.FS.Stream) (out : IO.FS.Stream) : IO Unit := do
   let line ← h.getLine
